@@ -56,6 +56,16 @@ check("C07", "exploration",
       "Trusted: serde_json, the fake/live scripted servers. (c) samples schedules only; a hang would end as exit 2 via the watchdog.",
       "model-based stateful testing (bounded-exhaustive + proptest) and randomized multi-thread stress with invariant oracle", "DESIGN.md §4 C07")
 
+check("C06", "fault_enumeration",
+      "Systematic fault enumeration over a 24-stream corpus: every truncation point and, per byte position, bit flips / delete / duplicate / insert NUL / insert invalid UTF-8 / lone-surrogate escape; per JSON value position retyping to every other JSON type and member removal; nesting depths 1..10000 inside parameters and at top level; empty, blank, scalar and 16 MiB messages; plus proptest-generated byte strings biased to JSON tokens. Every piece of the mutated stream is classified independently; the oracle demands exact model replies for untouched pieces before the fault, no reply + Err for the first malformed piece, at most one well-shaped reply for mutated-but-well-formed pieces, no panic. The in-memory part runs in a journaled child process so that a process abort is attributed to its case. Through listen(): sampled mutants on a faulty connection beside a healthy one (tagged calls before/during/after) and a fresh connection afterwards; the faulty connection must be closed by the service; a worker panic is detected when the pool is joined.",
+      "Trusted: serde_json decides what is JSON (classifier). Pieces the statement does not decide (top-level array, duplicate members, nesting within 8 of serde_json's limit) end the alignment check of that stream. Socket stalls are inconclusive (exit 2).",
+      "systematic fault injection (mutation operators enumerated per position) + proptest random bytes, classifier-based oracle", "DESIGN.md §4 C06")
+
+check("C17", "exploration",
+      "Systematic part: all 3x3x3 flag combinations x 7 parameter shapes x 4 method strings for Request, all Reply combinations, all 256 subsets of 8 awkward keys for StringHashSet. Random part: proptest values of every wire type through all 12 serialiser/deserialiser pairs (to_string/to_vec/to_value x from_str/from_slice/from_reader/from_value), shape oracles (unset members omitted, sets as objects of empty objects), and arbitrary valid request/reply JSON objects deserialised and serialised back (equal modulo null-valued optional members).",
+      "Trusted: serde_json. Floats are restricted to those serde_json reads back exactly from its own output; Rust-side parameters: Some(Null) is excluded (JSON null is the absent optional).",
+      "round-trip property testing (all serialiser x deserialiser pairs) with proptest + systematic enumeration", "DESIGN.md §4 C17")
+
 ALL = ["C%02d" % i for i in range(1, 21)]
 
 NOT_BUILT_REASON = "check not built yet in this round (design in DESIGN.md §4); not claimed until it exists and is validated"
